@@ -624,9 +624,19 @@ func splitElementaryTypeSuffix(abiTypeString string, pos int) (string, string) {
 	return suffix.String(), arrays.String()
 }
 
+// parseCanonicalUint parses an unsigned decimal number that must be written in its canonical form.
+// Spellings such as "0256" are rejected, as "uint0256" is not a type (and would hash to a different signature than "uint256")
+func parseCanonicalUint(s string, bitSize int) (uint64, error) {
+	val, err := strconv.ParseUint(s, 10, bitSize)
+	if err == nil && strconv.FormatUint(val, 10) != s {
+		err = &strconv.NumError{Func: "ParseUint", Num: s, Err: strconv.ErrSyntax}
+	}
+	return val, err
+}
+
 // parseMSuffix parses the "256" in "uint256" against the the <M> rules for an elementary type, such as uint<M>, or ufixed<M>x<N>.
 func parseMSuffix(ctx context.Context, abiTypeString string, ec *typeComponent, suffix string) error {
-	val, err := strconv.ParseUint(suffix, 10, 16)
+	val, err := parseCanonicalUint(suffix, 16)
 	if err != nil {
 		return i18n.WrapError(ctx, err, signermsgs.MsgInvalidABISuffix, abiTypeString, ec.elementaryType)
 	}
@@ -643,7 +653,7 @@ func parseMSuffix(ctx context.Context, abiTypeString string, ec *typeComponent, 
 
 // parseNSuffix parses the "18" in "ufixed256x18" against the the <N> rules for an elementary type, such as ufixed<M>x<N>
 func parseNSuffix(ctx context.Context, abiTypeString string, ec *typeComponent, suffix string) error {
-	val, err := strconv.ParseUint(suffix, 10, 16)
+	val, err := parseCanonicalUint(suffix, 16)
 	if err != nil {
 		return i18n.WrapError(ctx, err, signermsgs.MsgInvalidABISuffix, abiTypeString, ec.elementaryType)
 	}
